@@ -197,15 +197,17 @@ class shrink_length(Contract):
            'well-formed element of the same type, length L - val, same leading value bytes, for every pair of length widths')
 
     def setup(self, cx):
-        return dict(wire=cx.run.input_buf('wire', 'bytearray'), val=cx.run.input_int('val'))
+        wire = cx.run.input_buf('wire', 'bytearray')
+        cx.run.assume(bytes_in_range(cx.run.heap, wire, 0, 18))     # heap invariant: cells hold bytes (every write is checked)
+        return dict(wire=wire, val=cx.run.input_int('val'))
 
     def pre(self, cx, wire, val):
         if not (isinstance(wire, View) and wire.writable):
             return False
         typ, tn, size, sn = _hdr(cx, wire)
         L = zint(wire.length)
-        return And(L >= 2, tn == tlsize(typ), sn == tlsize(size), L == tn + sn + size, zint(val) > 0, zint(val) <= size,
-                   bytes_in_range(cx.old_heap, wire, 0, 18))
+        return {'nonempty': L >= 2, 'type_shortest': tn == tlsize(typ), 'length_shortest': sn == tlsize(size),
+                'exact_length': L == tn + sn + size, 'shrink_positive': zint(val) > 0, 'shrink_within_value': zint(val) <= size}
 
     def post(self, cx, result, wire, val):
         typ, tn, size, sn = _hdr(cx, wire)
